@@ -354,7 +354,7 @@ func histObs(b *Built, sc *Scenario, args []string) string {
 				continue
 			}
 			for _, a := range cm.Pos.Args {
-				if !a.IsRest() && a.T.W != WMap && len(sc.Exp.PosVals[a]) > 0 && a.Val.IsValid() {
+				if !a.IsRest() && !a.PtrSlice && a.T.W != WMap && len(sc.Exp.PosVals[a]) > 0 && a.Val.IsValid() {
 					fmt.Fprintf(&sb, "positional %s = %s\n", a.DisplayName(), Canon(a.Val))
 				}
 			}
